@@ -13,6 +13,7 @@ Open Scope Z_scope.
 
 (* ---- the result as a statement about sets of first moves ---- *)
 Section Sets.
+Variable pinned : bool.
 Variable basis : list N.
 Variable cfg : config.
 Variable k : Z.
@@ -38,16 +39,25 @@ Proof.
   intros Hin. apply Hn. apply in_map_iff in Hin. destruct Hin as (x & E & Hx). apply filter_In in Hx. apply in_map_iff. exists x. tauto.
 Qed.
 
-Theorem all_result_sets sk pvs v d : 1 <= d -> all_result basis cfg k p sk pvs v d ->
-  (* for every cancellation point *)
-  v = nm (Z.to_nat d) p /\ pvs <> [] /\ Forall head_accepted pvs /\ attains d v (hd move0 (hd [] pvs)) /\
-  (* when the flag was never seen set *)
-  (cancelled k sk = false ->
-     (forall l, In l pvs -> attains d v (hd move0 l)) /\
-     (forall m, In m (all_moves p) -> attains d v m -> exists l, In l pvs /\ move_equal (hd move0 l) m = true) /\
-     NoDup (map AllMovesFacts2.key (map (hd move0) pvs))).
+Lemma NoDup_app_l {A} (l1 l2 : list A) : NoDup (l1 ++ l2) -> NoDup l1.
 Proof.
-  intros D1 (EV & pm & pvt & q0 & ms & tails & -> & Hpv & T & Hq0 & X & LO & PERM & SORT & HEADS).
+  induction l1 as [|a l1 IH]; intros H; [constructor|]. cbn [app] in H. inversion H as [|? ? Hn Hd]; subst.
+  constructor; [intros Hin; apply Hn; apply in_or_app; left; exact Hin|apply IH; exact Hd].
+Qed.
+
+Theorem all_result_sets sk pvs v d c : 1 <= d -> all_result pinned basis cfg k p sk pvs v d c ->
+  (* for every cancellation point, either variant of the code *)
+  v = nm (Z.to_nat d) p /\ pvs <> [] /\ Forall head_accepted pvs /\ attains d v (hd move0 (hd [] pvs)) /\
+  (* repaired code at every cancellation point (old code: while the flag is unset): every listed first move attains the value, none twice *)
+  (pinned = false \/ cancelled k sk = false ->
+     (forall l, In l pvs -> attains d v (hd move0 l)) /\ NoDup (map AllMovesFacts2.key (map (hd move0) pvs))) /\
+  (* the flag was never seen set: every entry of AllMoves that attains the value is listed *)
+  (cancelled k sk = false ->
+     forall m, In m (all_moves p) -> attains d v m -> exists l, In l pvs /\ move_equal (hd move0 l) m = true) /\
+  (* repaired code: not reported as cancelled = the flag was never seen set *)
+  (pinned = false -> c = false -> cancelled k sk = false).
+Proof.
+  intros D1 (EV & pm & pvt & q0 & ms & tails & -> & Hpv & T & Hq0 & X & LO & PERM & SORT & HPRE & HEADS & HC).
   assert (Hpm : okm pm) by (inversion Hpv; assumption).
   assert (ED : S (Z.to_nat d - 1) = Z.to_nat d) by lia.
   assert (APM : attains d v pm) by (exists q0; split; [apply try_mvp; assumption|exact X]).
@@ -55,50 +65,54 @@ Proof.
   { constructor; [exists pm, pvt, q0; auto using try_mvp|].
     rewrite Forall_forall in LO |- *. intros l Hl. destruct (LO l Hl) as (m & rest & q & -> & Hm & Tm & _).
     exists m, rest, q. pose proof (all_moves_okm p m Hm). auto using try_mvp. }
-  intros NC. specialize (HEADS NC).
-  assert (TAIL : forall l, In l tails -> exists m, hd move0 l = m /\ In m ms /\ move_equal pm m = false /\ best basis cfg (Z.to_nat d - 1) p m = true).
-  { intros l Hl. assert (Hh : In (hd move0 l) (map (hd move0) tails)) by (apply in_map; exact Hl).
-    rewrite HEADS in Hh. apply filter_In in Hh. destruct Hh as (A & B). apply andb_true_iff in B. destruct B as (B1 & B2).
-    exists (hd move0 l). split; [reflexivity|]. split; [exact A|]. split; [apply negb_true_iff; exact B1|exact B2]. }
-  split; [|split].
-  - intros l [<-|Hl]; [exact APM|]. destruct (TAIL l Hl) as (m & -> & Hm & _ & B). unfold best in B.
-    assert (Hm' : okm m) by (apply all_moves_okm with p; apply (Permutation_in m PERM Hm)).
-    destruct (try_move basis p m) as [q|] eqn:Tm; [|discriminate B]. apply Z.eqb_eq in B.
-    exists q. split; [apply try_mvp; assumption|]. rewrite B, ED. symmetry. exact EV.
-  - intros m Hm (q & Em & Eq). destruct (move_equal pm m) eqn:EPM.
+  split; [|split; [|exact HC]].
+  - intros H0. destruct (HPRE H0) as (rest' & EPRE).
+    assert (TAIL : forall m, In m (map (hd move0) tails) -> In m ms /\ move_equal pm m = false /\ best basis cfg (Z.to_nat d - 1) p m = true).
+    { intros m Hh. assert (Hin : In m (map (hd move0) tails ++ rest')) by (apply in_or_app; left; exact Hh).
+      rewrite <- EPRE in Hin. apply filter_In in Hin. destruct Hin as (A & B). apply andb_true_iff in B. destruct B as (B1 & B2).
+      split; [exact A|]. split; [apply negb_true_iff; exact B1|exact B2]. }
+    split.
+    + intros l [<-|Hl]; [exact APM|]. destruct (TAIL (hd move0 l) (in_map _ _ _ Hl)) as (Hm & _ & B). unfold best in B.
+      assert (Hm' : okm (hd move0 l)) by (apply all_moves_okm with p; apply (Permutation_in _ PERM Hm)).
+      destruct (try_move basis p (hd move0 l)) as [q|] eqn:Tm; [|discriminate B]. apply Z.eqb_eq in B.
+      exists q. split; [apply try_mvp; assumption|]. rewrite B, ED. symmetry. exact EV.
+    + cbn [map]. constructor.
+      * intros Hin. apply in_map_iff in Hin. destruct Hin as (m & E & Hm). destruct (TAIL m Hm) as (_ & B1 & _).
+        assert (AllMovesFacts2.move_equal pm m = true) by (apply AllMovesFacts2.move_equal_key; symmetry; exact E).
+        change (AllMovesFacts2.move_equal pm m) with (move_equal pm m) in H. congruence.
+      * assert (ND : NoDup (map AllMovesFacts2.key (map (hd move0) tails ++ rest'))).
+        { rewrite <- EPRE. apply NoDup_map_filter. apply (Permutation_NoDup (Permutation_map _ (Permutation_sym PERM))).
+          apply AllMovesFacts2.allmoves_nodup_key. }
+        rewrite map_app in ND. apply NoDup_app_l in ND. exact ND.
+  - intros NC m Hm (q & Em & Eq). specialize (HEADS NC). destruct (move_equal pm m) eqn:EPM.
     + exists (pm :: pvt). split; [left; reflexivity|exact EPM].
     + assert (Hin : In m (map (hd move0) tails)).
       { rewrite HEADS. apply filter_In. split; [apply (Permutation_in m (Permutation_sym PERM) Hm)|].
         rewrite EPM. cbn [negb andb]. unfold best. rewrite (mvp_try m q (all_moves_okm p m Hm) Em). apply Z.eqb_eq.
         rewrite ED, Eq. exact EV. }
       apply in_map_iff in Hin. destruct Hin as (l & E & Hl). exists l. split; [right; exact Hl|]. rewrite E. apply move_equal_refl.
-  - cbn [map]. constructor.
-    + intros Hin. apply in_map_iff in Hin. destruct Hin as (m & E & Hm). rewrite HEADS in Hm. apply filter_In in Hm.
-      destruct Hm as (_ & B). apply andb_true_iff in B. destruct B as (B1 & _). apply negb_true_iff in B1.
-      assert (AllMovesFacts2.move_equal pm m = true) by (apply AllMovesFacts2.move_equal_key; symmetry; exact E).
-      change (AllMovesFacts2.move_equal pm m) with (move_equal pm m) in H. congruence.
-    + rewrite HEADS. apply NoDup_map_filter. apply (Permutation_NoDup (Permutation_map _ (Permutation_sym PERM))).
-      apply AllMovesFacts2.allmoves_nodup_key.
 Qed.
 End Sets.
 
-(* ---- the hypotheses discharged (as SearchNeg3.v / SearchNeg5.v do for Analyze) ---- *)
-Definition analyze_all_cancel (basis : list N) (cfg : config) (k : Z) := analyze_all_gen false basis cfg k.   (* k = 0: Search.analyze_all *)
+(* ---- the hypotheses discharged (as SearchNeg3.v / SearchNeg5.v do for Analyze) ----
+   Search.analyze_all_cancel basis cfg k = the repaired AnalyzeAll, context cancelled inside the k-th leaf evaluation (k = 0: never,
+   Search.analyze_all); Search.analyze_all_pinned = the code before the AnalyzeAll repair. *)
 
 (* what the theorems below conclude: the state invariant again; either nothing was completed (depth 0, no lines) or the report is exact *)
-Definition all_exact (cfg : config) (k : Z) (p : position) (sk : sstate) (pvs : list (list rmove)) (v d : Z) : Prop :=
-  SI sk /\ (d = 0 /\ pvs = [] \/ 1 <= d <= 16 /\ d <= c_depth cfg /\ is_over p = false /\ all_result gen_basis cfg k p sk pvs v d).
+Definition all_exact (pinned : bool) (cfg : config) (k : Z) (p : position) (sk : sstate) (pvs : list (list rmove)) (v d : Z) (c : bool) : Prop :=
+  SI sk /\ (d = 0 /\ pvs = [] \/ 1 <= d <= 16 /\ d <= c_depth cfg /\ is_over p = false /\ all_result pinned gen_basis cfg k p sk pvs v d c).
 
 Section Final.
+Variable pinned : bool.
 Variable cfg : config.
 Hypothesis Hprecise : precise cfg.
 
 Theorem analyze_all_winner : c_eval cfg = evaluate_winner ->
   forall k s p sk pvs v d c, SI s -> base_ok p -> within (dmax cfg) p ->
-  analyze_all_cancel gen_basis cfg k s p = (sk, (pvs, v, d, c)) -> all_exact cfg k p sk pvs v d.
+  analyze_all_gen pinned gen_basis cfg k s p = (sk, (pvs, v, d, c)) -> all_exact pinned cfg k p sk pvs v d c.
 Proof.
   intros Hev k s p sk pvs v d c HS Hb HW H. destruct Hprecise as (P1 & P2 & P3).
-  apply (analyze_all_exactx false gen_basis cfg k P1 P2 P3 PosW PosW_closed
+  apply (analyze_all_exactx pinned gen_basis cfg k P1 P2 P3 PosW PosW_closed
               (fun d p m q HP EO => base_ok_hint p m q (proj1 HP))
               (fun d p HP EO => base_ok_live p (proj1 HP) EO)
               ltac:(intros d0 p0 _; rewrite Hev; apply evaluate_winner_bounded)
@@ -108,10 +122,10 @@ Qed.
 
 Theorem analyze_all_default : c_eval cfg = default_eval ->
   forall k s p sk pvs v d c, SI s -> base_ok p -> within (dmax cfg) p -> move p + Z.of_nat (dmax cfg) <= max_terminal_ply ->
-  analyze_all_cancel gen_basis cfg k s p = (sk, (pvs, v, d, c)) -> all_exact cfg k p sk pvs v d.
+  analyze_all_gen pinned gen_basis cfg k s p = (sk, (pvs, v, d, c)) -> all_exact pinned cfg k p sk pvs v d c.
 Proof.
   intros Hev k s p sk pvs v d c HS Hb HW Hm H. destruct Hprecise as (P1 & P2 & P3).
-  apply (analyze_all_exactx false gen_basis cfg k P1 P2 P3 PosD PosD_closed
+  apply (analyze_all_exactx pinned gen_basis cfg k P1 P2 P3 PosD PosD_closed
               (fun d p m q HP EO => base_ok_hint p m q (proj1 (proj1 HP)))
               (fun d p HP EO => base_ok_live p (proj1 (proj1 HP)) EO)
               ltac:(intros d0 p0 ((Hb0 & _) & Hm0); rewrite Hev; apply default_eval_bounded; [apply Hb0|destruct Hb0 as (_ & _ & M0 & _); lia])
@@ -120,31 +134,62 @@ Proof.
 Qed.
 End Final.
 
-(* every board size, games of at most 64 pieces, both evaluators of the check: nothing is assumed about the rules engine or the evaluator *)
-Theorem analyze_all_exact_64 : forall cfg, precise cfg -> builtin_eval cfg ->
+(* every board size, games of at most 64 pieces, both evaluators of the check: nothing is assumed about the rules engine or the evaluator;
+   pinned = false: the repaired AnalyzeAll, pinned = true: the code before the repair *)
+Theorem analyze_all_exact_gen_64 : forall pinned cfg, precise cfg -> builtin_eval cfg ->
   forall k s p sk pvs v d c,
   SI s -> base_ok p -> (total p <= 64)%N -> move p + 16 <= max_terminal_ply ->
-  analyze_all_cancel gen_basis cfg k s p = (sk, (pvs, v, d, c)) -> all_exact cfg k p sk pvs v d.
+  analyze_all_gen pinned gen_basis cfg k s p = (sk, (pvs, v, d, c)) -> all_exact pinned cfg k p sk pvs v d c.
 Proof.
-  intros cfg HP [HE|HE] k s p sk pvs v d c HS Hb Ht Hm H.
-  - apply (analyze_all_winner cfg HP HE k s p sk pvs v d c HS Hb); [|exact H]. apply within_total64; [apply Hb|exact Ht].
-  - apply (analyze_all_default cfg HP HE k s p sk pvs v d c HS Hb); [| |exact H].
+  intros pinned cfg HP [HE|HE] k s p sk pvs v d c HS Hb Ht Hm H.
+  - apply (analyze_all_winner pinned cfg HP HE k s p sk pvs v d c HS Hb); [|exact H]. apply within_total64; [apply Hb|exact Ht].
+  - apply (analyze_all_default pinned cfg HP HE k s p sk pvs v d c HS Hb); [| |exact H].
     + apply within_total64; [apply Hb|exact Ht].
     + unfold dmax. lia.
 Qed.
+
+Theorem analyze_all_exact_64 : forall cfg, precise cfg -> builtin_eval cfg ->
+  forall k s p sk pvs v d c,
+  SI s -> base_ok p -> (total p <= 64)%N -> move p + 16 <= max_terminal_ply ->
+  analyze_all_cancel gen_basis cfg k s p = (sk, (pvs, v, d, c)) -> all_exact false cfg k p sk pvs v d c.
+Proof. intros cfg. exact (analyze_all_exact_gen_64 false cfg). Qed.
 
 (* the same under the side condition `within` (any game) *)
 Theorem analyze_all_exact_within : forall cfg, precise cfg -> builtin_eval cfg ->
   forall k s p sk pvs v d c,
   SI s -> base_ok p -> within (dmax cfg) p -> move p + 16 <= max_terminal_ply ->
-  analyze_all_cancel gen_basis cfg k s p = (sk, (pvs, v, d, c)) -> all_exact cfg k p sk pvs v d.
+  analyze_all_cancel gen_basis cfg k s p = (sk, (pvs, v, d, c)) -> all_exact false cfg k p sk pvs v d c.
 Proof.
   intros cfg HP [HE|HE] k s p sk pvs v d c HS Hb HW Hm H.
-  - apply (analyze_all_winner cfg HP HE k s p sk pvs v d c HS Hb HW H).
-  - apply (analyze_all_default cfg HP HE k s p sk pvs v d c HS Hb HW); [|exact H]. unfold dmax. lia.
+  - apply (analyze_all_winner false cfg HP HE k s p sk pvs v d c HS Hb HW H).
+  - apply (analyze_all_default false cfg HP HE k s p sk pvs v d c HS Hb HW); [|exact H]. unfold dmax. lia.
 Qed.
 
-(* C05, clause 1, third part, as a statement about sets: never cancelled (Search.analyze_all) *)
+(* C05, clause 1, third part, as a statement about sets.  The repaired AnalyzeAll, context cancelled inside the k-th leaf evaluation or
+   never (k = 0), whenever a depth d > 0 is reported:
+     for EVERY k: the value is the negamax value, every line starts with an accepted move, EVERY listed first move attains the value,
+                  no two listed first moves are Equal;
+     if the call is not reported as cancelled (c = false): every entry of AllMoves that attains the value is listed up to Move.Equal. *)
+Theorem analyze_all_sets_cancel_64 : forall cfg, precise cfg -> builtin_eval cfg ->
+  forall k s p sk pvs v d c,
+  SI s -> base_ok p -> (total p <= 64)%N -> move p + 16 <= max_terminal_ply ->
+  analyze_all_cancel gen_basis cfg k s p = (sk, (pvs, v, d, c)) -> 0 < d ->
+  SI sk /\ v = nmx gen_basis (c_eval cfg) (Z.to_nat d) p /\ pvs <> [] /\
+  Forall (head_accepted gen_basis p) pvs /\
+  (forall l, In l pvs -> attains gen_basis cfg p d v (hd move0 l)) /\
+  NoDup (map AllMovesFacts2.key (map (hd move0) pvs)) /\
+  (c = false ->
+    forall m, In m (all_moves p) -> attains gen_basis cfg p d v m -> exists l, In l pvs /\ move_equal (hd move0 l) m = true).
+Proof.
+  intros cfg HP HE k s p sk pvs v d c HS Hb Ht Hm H Hd.
+  destruct (analyze_all_exact_64 cfg HP HE k s p sk pvs v d c HS Hb Ht Hm H) as (A & [(E & _)|(D1 & _ & _ & R)]); [lia|].
+  destruct (all_result_sets false gen_basis cfg k p sk pvs v d c ltac:(lia) R) as (B1 & B2 & B3 & B4 & B5 & B6 & B7).
+  destruct (B5 (or_introl eq_refl)) as (C1 & C2).
+  split; [exact A|]. split; [exact B1|]. split; [exact B2|]. split; [exact B3|]. split; [exact C1|]. split; [exact C2|].
+  intros EC. apply B6. apply B7; [reflexivity|exact EC].
+Qed.
+
+(* never cancelled (Search.analyze_all) *)
 Theorem analyze_all_sets_64 : forall cfg, precise cfg -> builtin_eval cfg ->
   forall s p sk pvs v d c,
   SI s -> base_ok p -> (total p <= 64)%N -> move p + 16 <= max_terminal_ply ->
@@ -157,15 +202,15 @@ Theorem analyze_all_sets_64 : forall cfg, precise cfg -> builtin_eval cfg ->
 Proof.
   intros cfg HP HE s p sk pvs v d c HS Hb Ht Hm H Hd.
   destruct (analyze_all_exact_64 cfg HP HE 0 s p sk pvs v d c HS Hb Ht Hm H) as (A & [(E & _)|(D1 & _ & _ & R)]); [lia|].
-  destruct (all_result_sets gen_basis cfg 0 p sk pvs v d ltac:(lia) R) as (B1 & _ & B3 & _ & B5).
-  destruct (B5 eq_refl) as (C1 & C2 & C3). auto 10.
+  destruct (all_result_sets false gen_basis cfg 0 p sk pvs v d c ltac:(lia) R) as (B1 & _ & B3 & _ & B5 & B6 & _).
+  destruct (B5 (or_introl eq_refl)) as (C1 & C2). specialize (B6 eq_refl). auto 10.
 Qed.
 
-(* ... and for a call cancelled at any point k: what always holds, and the exact set as long as the flag was not seen set *)
-Theorem analyze_all_sets_cancel_64 : forall cfg, precise cfg -> builtin_eval cfg ->
+(* the code BEFORE the repair: the same only while the flag has not been seen set *)
+Theorem analyze_all_sets_pinned_64 : forall cfg, precise cfg -> builtin_eval cfg ->
   forall k s p sk pvs v d c,
   SI s -> base_ok p -> (total p <= 64)%N -> move p + 16 <= max_terminal_ply ->
-  analyze_all_cancel gen_basis cfg k s p = (sk, (pvs, v, d, c)) -> 0 < d ->
+  analyze_all_pinned gen_basis cfg k s p = (sk, (pvs, v, d, c)) -> 0 < d ->
   SI sk /\ v = nmx gen_basis (c_eval cfg) (Z.to_nat d) p /\ pvs <> [] /\
   Forall (head_accepted gen_basis p) pvs /\ attains gen_basis cfg p d v (hd move0 (hd [] pvs)) /\
   (cancelled k sk = false ->
@@ -174,8 +219,10 @@ Theorem analyze_all_sets_cancel_64 : forall cfg, precise cfg -> builtin_eval cfg
     NoDup (map AllMovesFacts2.key (map (hd move0) pvs))).
 Proof.
   intros cfg HP HE k s p sk pvs v d c HS Hb Ht Hm H Hd.
-  destruct (analyze_all_exact_64 cfg HP HE k s p sk pvs v d c HS Hb Ht Hm H) as (A & [(E & _)|(D1 & _ & _ & R)]); [lia|].
-  destruct (all_result_sets gen_basis cfg k p sk pvs v d ltac:(lia) R) as (B1 & B2 & B3 & B4 & B5). auto 10.
+  destruct (analyze_all_exact_gen_64 true cfg HP HE k s p sk pvs v d c HS Hb Ht Hm H) as (A & [(E & _)|(D1 & _ & _ & R)]); [lia|].
+  destruct (all_result_sets true gen_basis cfg k p sk pvs v d c ltac:(lia) R) as (B1 & B2 & B3 & B4 & B5 & B6 & _).
+  split; [exact A|]. split; [exact B1|]. split; [exact B2|]. split; [exact B3|]. split; [exact B4|].
+  intros NC. destruct (B5 (or_intror NC)) as (C1 & C2). auto.
 Qed.
 
 (* completeness extended from the entries of AllMoves to EVERY raw move value (C03: an accepted move is Equal to an entry) *)
@@ -195,15 +242,14 @@ Lemma move_equal_trans' a b c : move_equal a b = true -> move_equal b c = true -
 Proof. exact (AllMovesFacts2.move_equal_trans a b c). Qed.
 
 Theorem analyze_all_complete_raw_64 : forall cfg, precise cfg -> builtin_eval cfg ->
-  forall s p sk pvs v d c,
+  forall k s p sk pvs v d c,
   SI s -> base_ok p -> (total p <= 64)%N -> move p + 16 <= max_terminal_ply ->
-  analyze_all gen_basis cfg s p = (sk, (pvs, v, d, c)) -> 0 < d ->
+  analyze_all_cancel gen_basis cfg k s p = (sk, (pvs, v, d, c)) -> 0 < d -> c = false ->
   forall m, attains gen_basis cfg p d v m -> exists l, In l pvs /\ move_equal (hd move0 l) m = true.
 Proof.
-  intros cfg HP HE s p sk pvs v d c HS Hb Ht Hm H Hd m (q & Tm & Eq).
-  destruct (analyze_all_sets_64 cfg HP HE s p sk pvs v d c HS Hb Ht Hm H Hd) as (_ & _ & _ & _ & C2 & _).
+  intros cfg HP HE k s p sk pvs v d c HS Hb Ht Hm H Hd EC m (q & Tm & Eq).
+  destruct (analyze_all_sets_cancel_64 cfg HP HE k s p sk pvs v d c HS Hb Ht Hm H Hd) as (_ & _ & _ & _ & _ & _ & C2).
   destruct (accepted_is_generated p m q Hb Tm) as (g & Hg & EQ & Tg).
-  destruct (C2 g Hg ltac:(exists q; split; assumption)) as (l & Hl & E). exists l. split; [exact Hl|].
+  destruct (C2 EC g Hg ltac:(exists q; split; assumption)) as (l & Hl & E). exists l. split; [exact Hl|].
   apply (move_equal_trans' _ g _ E EQ).
 Qed.
-
